@@ -1,42 +1,268 @@
-import ElvisVerif.Lemmas.ModCmp
+import ElvisVerif.Lemmas.ModCmpGen
 /-!
-# C12 — TCP behaviour is independent of absolute sequence numbers (mod 2^32)
+# C12 — TCP behaviour is independent of absolute sequence numbers (mod 2^32), part 1
 
-Stage 1 (state of the code BEFORE the repair of F-C12-1): the primitives that hold, and the
-counterexample for `mod_leq` / `mod_geq`.
+The circular comparison primitives.  Every theorem is about the kernels EXTRACTED from
+`tcp/tcb/modular_cmp.rs` (`Generated/ModCmpKernels.lean`, regenerated on every check), so an
+edit of that file re-checks — and, if it changes behaviour, breaks — these proofs.
+
+* agreement with the mathematical circular order for every pair `(a, a + d)`, `d < 2^31`
+  (`c12_mod_lt_iff … c12_mod_geq_strict`);
+* mutual consistency for ALL pairs (`c12_mod_leq_iff`, `c12_mod_lt_leq`, `c12_mod_geq_iff`,
+  `c12_mod_gt_flip`, `c12_mod_geq_flip`, `c12_mod_lt_iff_not_geq`, `c12_mod_lt_trans`);
+* `mod_bounded` = membership in the cyclic interval, in offset form (`c12_mod_bounded_iff`,
+  `_half`, `_lt_lt`), exact for every interval shorter than `2^32 − 2`;
+* invariance of each primitive under a common shift (`c12_mod_*_shift`);
+* `impl Ord for Segment` (the reorder heap): on sequence numbers inside one half circle it is
+  the reversed numeric order of the offsets, hence a strict weak order
+  (`c12_segment_order`, `c12_segment_strict_weak_order`).
+
+F-C12-1 (repaired in the repository, commit `fix: mod_leq/mod_geq …`): `mod_leq a b` was coded as
+`mod_lt a (b+1)` and therefore false at distance exactly `2^31 − 1` although `mod_lt` is true
+there (mirror image for `mod_geq`).  The former `c12_mod_leq_counterexample` is kept as
+`c12_mod_leq_regression`.
 -/
 namespace Elvis.Tcp
 open Elvis.ModCmp
+open Elvis.Gen.ModCmp (mod_lt mod_leq mod_gt mod_geq mod_bounded)
 
-theorem sub_add_cancel_left (a d : BitVec 32) : (a + d) - a = d := by bv_omega
-theorem sub_add_left_neg (a d : BitVec 32) : a - (a + d) = -d := by bv_omega
-theorem add_sub_add_right (a b k : BitVec 32) : (b + k) - (a + k) = b - a := by bv_omega
+/-! ## offset forms of the extracted kernels -/
 
-theorem gen_mod_lt_iff (a b : BitVec 32) :
-    Elvis.Gen.ModCmp.mod_lt a b = true ↔ 0 < (b - a).toNat ∧ (b - a).toNat < 2147483648 := by
-  rw [← modLt_eq_generated]; exact modLt_iff a b
+/-! ## T1: the primitives agree with the circular order for all pairs less than 2^31 apart -/
 
 theorem c12_mod_lt_iff (a d : BitVec 32) (hd : d.toNat < 2147483648) :
-    Elvis.Gen.ModCmp.mod_lt a (a + d) = true ↔ 0 < d.toNat := by
+    mod_lt a (a + d) = true ↔ 0 < d.toNat := by
   rw [gen_mod_lt_iff, sub_add_cancel_left]; omega
 
 theorem c12_mod_lt_asymm (a d : BitVec 32) (hd : d.toNat < 2147483648) :
-    Elvis.Gen.ModCmp.mod_lt (a + d) a = false := by
+    mod_lt (a + d) a = false := by
   rw [Bool.eq_false_iff]; intro h
   rw [gen_mod_lt_iff, sub_add_left_neg, BitVec.toNat_neg] at h
   omega
 
-theorem c12_mod_lt_shift (a b k : BitVec 32) :
-    Elvis.Gen.ModCmp.mod_lt (a + k) (b + k) = Elvis.Gen.ModCmp.mod_lt a b := by
-  rw [Bool.eq_iff_iff, gen_mod_lt_iff, gen_mod_lt_iff, add_sub_add_right]
+theorem c12_mod_gt_flip (a b : BitVec 32) : mod_gt a b = mod_lt b a := rfl
 
-/-- F-C12-1: at distance exactly `2^31 − 1` the strict comparison holds and the non-strict one
-    does not (`mod_leq a b` is coded as `mod_lt a (b+1)`, and `b + 1` is `2^31` ahead of `a`);
-    the mirror image for `mod_geq`. -/
-theorem c12_mod_leq_counterexample :
-    Elvis.Gen.ModCmp.mod_lt 0#32 (0#32 + 2147483647#32) = true ∧
-    Elvis.Gen.ModCmp.mod_leq 0#32 (0#32 + 2147483647#32) = false ∧
-    Elvis.Gen.ModCmp.mod_gt (0#32 + 2147483647#32) 0#32 = true ∧
-    Elvis.Gen.ModCmp.mod_geq (0#32 + 2147483647#32) 0#32 = false := by decide
+theorem c12_mod_leq (a d : BitVec 32) (hd : d.toNat < 2147483648) : mod_leq a (a + d) = true := by
+  rw [gen_mod_leq_iff, sub_add_cancel_left]; exact hd
+
+theorem c12_mod_leq_strict (a d : BitVec 32) (hd : d.toNat < 2147483648) :
+    mod_leq (a + d) a = true ↔ d = 0#32 := by
+  rw [gen_mod_leq_iff, sub_add_left_neg, BitVec.toNat_neg]
+  constructor
+  · intro h
+    apply BitVec.eq_of_toNat_eq
+    simp only [BitVec.toNat_ofNat]
+    omega
+  · intro h; subst h; decide
+
+theorem c12_mod_geq (a d : BitVec 32) (hd : d.toNat < 2147483648) : mod_geq (a + d) a = true := by
+  rw [gen_mod_geq_iff, sub_add_cancel_left]; exact hd
+
+theorem c12_mod_geq_strict (a d : BitVec 32) (hd : d.toNat < 2147483648) :
+    mod_geq a (a + d) = true ↔ d = 0#32 := by
+  rw [gen_mod_geq_iff, sub_add_left_neg, BitVec.toNat_neg]
+  constructor
+  · intro h
+    apply BitVec.eq_of_toNat_eq
+    simp only [BitVec.toNat_ofNat]
+    omega
+  · intro h; subst h; decide
+
+/-! ## T1: mutual consistency, for ALL pairs -/
+
+theorem c12_mod_leq_iff (a b : BitVec 32) : mod_leq a b = true ↔ mod_lt a b = true ∨ a = b := by
+  rw [gen_mod_leq_iff, gen_mod_lt_iff, ← sub_toNat_eq_zero]; omega
+
+theorem c12_mod_lt_leq (a b : BitVec 32) (h : mod_lt a b = true) : mod_leq a b = true :=
+  (c12_mod_leq_iff a b).2 (Or.inl h)
+
+theorem c12_mod_geq_iff (a b : BitVec 32) : mod_geq a b = true ↔ mod_gt a b = true ∨ a = b := by
+  rw [gen_mod_geq_iff, gen_mod_gt_iff, eq_comm, ← sub_toNat_eq_zero]; omega
+
+theorem c12_mod_geq_flip (a b : BitVec 32) : mod_geq a b = mod_leq b a := by
+  rw [Bool.eq_iff_iff, gen_mod_geq_iff, gen_mod_leq_iff]
+
+/-- strict and non-strict are complementary whenever the pair is not exactly 2^31 apart -/
+theorem c12_mod_lt_iff_not_geq (a b : BitVec 32) (h : (b - a).toNat ≠ 2147483648) :
+    mod_lt a b = true ↔ mod_geq a b = false := by
+  rw [Bool.eq_false_iff, Ne, gen_mod_geq_iff, gen_mod_lt_iff]
+  have e : a - b = -(b - a) := by bv_omega
+  rw [e, BitVec.toNat_neg]
+  have := (b - a).isLt
+  omega
+
+/-- exactly 2^31 apart neither number precedes the other (there is no order to agree with) -/
+theorem c12_mod_lt_antipodal (a : BitVec 32) :
+    mod_lt a (a + 2147483648#32) = false ∧ mod_lt (a + 2147483648#32) a = false := by
+  constructor <;> (rw [Bool.eq_false_iff]; intro h; rw [gen_mod_lt_iff] at h)
+  · rw [sub_add_cancel_left] at h; simp at h
+  · rw [sub_add_left_neg] at h; simp at h
+
+/-- transitivity inside half the circle -/
+theorem c12_mod_lt_trans (a b c : BitVec 32) (h1 : mod_lt a b = true) (h2 : mod_lt b c = true)
+    (h3 : (c - a).toNat < 2147483648) : mod_lt a c = true := by
+  rw [gen_mod_lt_iff] at *
+  have e : c - a = (c - b) + (b - a) := by bv_omega
+  rw [e, BitVec.toNat_add] at h3 ⊢
+  generalize (c - b).toNat = x at *
+  generalize (b - a).toNat = y at *
+  omega
+
+
+/-! ## T1: `mod_bounded` is membership in the cyclic interval -/
+
+theorem c12_mod_bounded_offsets (a : BitVec 32) (c1 : Elvis.Gen.ModCmp.Cmp) (b : BitVec 32)
+    (c2 : Elvis.Gen.ModCmp.Cmp) (c : BitVec 32) :
+    mod_bounded a c1 b c2 c = true ↔
+      0 < (b - (a - c1.offset)).toNat ∧ (b - (a - c1.offset)).toNat < ((c + c2.offset) - (a - c1.offset)).toNat := by
+  have h := cyc_iff (a - c1.offset) b (c + c2.offset)
+  unfold cyc at h
+  unfold mod_bounded
+  exact h
+
+def lo : Elvis.Gen.ModCmp.Cmp → Nat | .Lt => 1 | .Leq => 0
+def hi : Elvis.Gen.ModCmp.Cmp → Nat | .Lt => 0 | .Leq => 1
+
+theorem c12_mod_bounded_iff (a : BitVec 32) (c1 : Elvis.Gen.ModCmp.Cmp) (b : BitVec 32)
+    (c2 : Elvis.Gen.ModCmp.Cmp) (c : BitVec 32) (hy : (c - a).toNat < 4294967294) :
+    mod_bounded a c1 b c2 c = true ↔
+      lo c1 ≤ (b - a).toNat ∧ (b - a).toNat < (c - a).toNat + hi c2 := by
+  rw [c12_mod_bounded_offsets, bnd_lo, bnd_hi]
+  generalize (b - a) = x
+  generalize (c - a) = y at hy ⊢
+  have hx := x.isLt
+  have e2 : ((1 : BitVec 32) + 1) = 2#32 := by decide
+  have h1 : (1 : BitVec 32).toNat = 1 := rfl
+  have h2 : (2#32 : BitVec 32).toNat = 2 := rfl
+  have y1 : (y + (1 : BitVec 32)).toNat = y.toNat + 1 := by rw [toNat_add_small y 1 (by rw [h1]; omega), h1]
+  have y2 : (y + 2#32).toNat = y.toNat + 2 := by rw [toNat_add_small y 2#32 (by rw [h2]; omega), h2]
+  have z0 : ((0 : BitVec 32) + 0) = 0 := by decide
+  have z1 : ((1 : BitVec 32) + 0) = 1 := by decide
+  have z2 : ((0 : BitVec 32) + 1) = 1 := by decide
+  have xz : ∀ v : BitVec 32, v + (0 : BitVec 32) = v := fun v => by simp
+  cases c1 <;> cases c2 <;>
+    simp only [Elvis.Gen.ModCmp.Cmp.offset, lo, hi, e2, z0, z1, z2, xz]
+  · omega
+  · rw [y1]; omega
+  · rw [toNat_add_one, y1]; split <;> omega
+  · rw [toNat_add_one, y2]; split <;> omega
+
+/-- the 2^31 form the property quantifies over -/
+theorem c12_mod_bounded_half (a : BitVec 32) (c1 : Elvis.Gen.ModCmp.Cmp) (d : BitVec 32)
+    (c2 : Elvis.Gen.ModCmp.Cmp) (e : BitVec 32) (he : e.toNat < 2147483648) :
+    mod_bounded a c1 (a + d) c2 (a + e) = true ↔ lo c1 ≤ d.toNat ∧ d.toNat < e.toNat + hi c2 := by
+  have h := c12_mod_bounded_iff a c1 (a + d) c2 (a + e)
+  rw [sub_add_cancel_left, sub_add_cancel_left] at h
+  exact h (by omega)
+
+/-- bounded-between is consistent with the two-place comparisons -/
+theorem c12_mod_bounded_lt_lt (a b c : BitVec 32) (hy : (c - a).toNat < 2147483648) :
+    mod_bounded a .Lt b .Lt c = true ↔ mod_lt a b = true ∧ mod_lt b c = true := by
+  rw [c12_mod_bounded_iff a .Lt b .Lt c (by omega), gen_mod_lt_iff, gen_mod_lt_iff,
+    sub_sub_sub_cancel a b c]
+  simp only [lo, hi]
+  generalize (b - a) = x
+  generalize (c - a) = y at hy ⊢
+  rw [BitVec.toNat_sub]
+  have := x.isLt
+  omega
+
+/-- the interval reading fails when the interval is the whole circle but one point -/
+theorem c12_mod_bounded_full_circle :
+    mod_bounded 5#32 .Leq 7#32 .Lt 4#32 = false := by decide
+
+/-! ## T1: shift invariance of every primitive -/
+
+theorem c12_mod_lt_shift (a b k : BitVec 32) : mod_lt (a + k) (b + k) = mod_lt a b := by
+  rw [← modLt_eq_generated, ← modLt_eq_generated, modLt_shift]
+theorem c12_mod_leq_shift (a b k : BitVec 32) : mod_leq (a + k) (b + k) = mod_leq a b := by
+  rw [← modLeq_eq_generated, ← modLeq_eq_generated, modLeq_shift]
+theorem c12_mod_gt_shift (a b k : BitVec 32) : mod_gt (a + k) (b + k) = mod_gt a b := by
+  rw [← modGt_eq_generated, ← modGt_eq_generated, modGt_shift]
+theorem c12_mod_geq_shift (a b k : BitVec 32) : mod_geq (a + k) (b + k) = mod_geq a b := by
+  rw [← modGeq_eq_generated, ← modGeq_eq_generated, modGeq_shift]
+theorem c12_mod_bounded_shift (a : BitVec 32) (c1 : Cmp) (b : BitVec 32) (c2 : Cmp) (c k : BitVec 32) :
+    mod_bounded (a + k) c1.toGen (b + k) c2.toGen (c + k) = mod_bounded a c1.toGen b c2.toGen c := by
+  rw [← modBounded_eq_generated, ← modBounded_eq_generated, modBounded_shift]
+
+/-- F-C12-1 (repaired): the former counterexample -/
+theorem c12_mod_leq_regression :
+    mod_lt 0#32 (0#32 + 2147483647#32) = true ∧ mod_leq 0#32 (0#32 + 2147483647#32) = true ∧
+    mod_gt (0#32 + 2147483647#32) 0#32 = true ∧ mod_geq (0#32 + 2147483647#32) 0#32 = true := by decide
+
+/-! ## T1: the order of the reorder heap (`impl Ord for Segment`, `tcb/segment.rs`) -/
+
+/-- `Ord::cmp` for `Segment`, over the extracted `mod_lt` -/
+def segCmp (a b : Segment) : Ordering :=
+  if a.hdr.seq == b.hdr.seq then .eq
+  else if mod_lt a.hdr.seq b.hdr.seq then .gt
+  else .lt
+
+/-- the `<=` the heap model uses is the one `PartialOrd` derives from `cmp` -/
+theorem c12_segment_le_is_cmp (a b : Segment) : segLe a b = (segCmp a b != .gt) := by
+  unfold segLe segCmp
+  rw [modLt_eq_generated]
+  cases (a.hdr.seq == b.hdr.seq) <;> cases mod_lt a.hdr.seq b.hdr.seq <;> rfl
+
+/-- `x` lies in the half circle that starts at `base` -/
+def InHalf (base x : Seq) : Prop := (x - base).toNat < 2147483648
+
+/-- on sequence numbers inside one half circle `cmp` IS the (reversed) numeric order of the
+    offsets: a total preorder, in particular a strict weak order -/
+theorem c12_segment_order (base : Seq) (a b : Segment)
+    (ha : InHalf base a.hdr.seq) (hb : InHalf base b.hdr.seq) :
+    segCmp a b = compare (b.hdr.seq - base).toNat (a.hdr.seq - base).toNat := by
+  unfold segCmp InHalf at *
+  have hlt := gen_mod_lt_iff a.hdr.seq b.hdr.seq
+  rw [sub_sub_sub_cancel' base a.hdr.seq b.hdr.seq] at hlt
+  have heq : (a.hdr.seq == b.hdr.seq) = true ↔ (a.hdr.seq - base).toNat = (b.hdr.seq - base).toNat := by
+    rw [beq_iff_eq, ← sub_right_inj' a.hdr.seq b.hdr.seq base]
+    exact ⟨fun h => by rw [h], fun h => BitVec.eq_of_toNat_eq h⟩
+  generalize (a.hdr.seq - base) = x at *
+  generalize (b.hdr.seq - base) = y at *
+  rw [BitVec.toNat_sub] at hlt
+  rcases Nat.lt_trichotomy x.toNat y.toNat with h | h | h
+  · have h1 : (a.hdr.seq == b.hdr.seq) = false := by
+      rw [← Bool.not_eq_true, heq]; omega
+    have h2 : mod_lt a.hdr.seq b.hdr.seq = true := hlt.2 (by omega)
+    rw [h1, h2]
+    exact (Nat.compare_eq_gt.2 h).symm
+  · rw [heq.2 h]
+    exact (Nat.compare_eq_eq.2 h.symm).symm
+  · have h1 : (a.hdr.seq == b.hdr.seq) = false := by
+      rw [← Bool.not_eq_true, heq]; omega
+    have h2 : mod_lt a.hdr.seq b.hdr.seq = false := by
+      rw [← Bool.not_eq_true, hlt]; omega
+    rw [h1, h2]
+    exact (Nat.compare_eq_lt.2 h).symm
+
+/-- the strict-weak-order laws, spelled out -/
+theorem c12_segment_strict_weak_order (base : Seq) (a b c : Segment)
+    (ha : InHalf base a.hdr.seq) (hb : InHalf base b.hdr.seq) (hc : InHalf base c.hdr.seq) :
+    segCmp a a = .eq ∧
+    (segCmp a b = .lt ↔ segCmp b a = .gt) ∧
+    (segCmp a b = .eq ↔ a.hdr.seq = b.hdr.seq) ∧
+    (segCmp a b = .lt → segCmp b c = .lt → segCmp a c = .lt) ∧
+    (segCmp a b = .eq → segCmp b c = .eq → segCmp a c = .eq) ∧
+    (segCmp a b = .lt → segCmp a c = .lt ∨ segCmp c b = .lt) := by
+  rw [c12_segment_order base a a ha ha, c12_segment_order base a b ha hb, c12_segment_order base b a hb ha,
+    c12_segment_order base b c hb hc, c12_segment_order base a c ha hc, c12_segment_order base c b hc hb]
+  have e : a.hdr.seq = b.hdr.seq ↔ (b.hdr.seq - base).toNat = (a.hdr.seq - base).toNat := by
+    rw [← sub_right_inj' a.hdr.seq b.hdr.seq base]
+    exact ⟨fun h => by rw [h], fun h => BitVec.eq_of_toNat_eq h.symm⟩
+  rw [e]
+  simp only [Nat.compare_eq_lt, Nat.compare_eq_gt, Nat.compare_eq_eq]
+  refine ⟨trivial, trivial, trivial, ?_, ?_, ?_⟩ <;> omega
+
+def segAt (q : Seq) : Segment := ⟨Hdr.builder 0 0 q, []⟩
+
+/-- the half-circle hypothesis cannot be weakened to "pairwise less than 2^31 apart": three
+    sequence numbers spread around the circle are pairwise close and ordered in a cycle.
+    (The TCB only parks segments that overlap its 64 KiB receive window.) -/
+theorem c12_segment_order_needs_half_circle :
+    segCmp (segAt 0#32) (segAt 1500000000#32) = .gt ∧
+    segCmp (segAt 1500000000#32) (segAt 3000000000#32) = .gt ∧
+    segCmp (segAt 3000000000#32) (segAt 0#32) = .gt := by decide
+
 
 end Elvis.Tcp
